@@ -87,3 +87,83 @@ Definition session_provider_reading : list (string * string * string) := [
   ("return", "not (not self.sc and (not self.completed))", "self.ltk");
   ("return", "", "None")
 ].
+
+(* The negotiation handlers as they stood when responder_session / initiator_session
+   (Model/Pairing.v) and on_request / on_response (Model/PairingMsg.v) were transcribed: the
+   assignments of the negotiated fields, the decisions, the sends and the tests, in source order with
+   nesting depth.  In particular bonding, sc (and ct2) are negotiated BEFORE the OOB test and
+   decide_pairing_method read self.sc, and the masks are set before
+   compute_peer_expected_distributions. *)
+
+Definition request_handler_reading : list (string * string) := [
+  ("0:try", "");
+  ("1:call", "self.pairing_config.delegate.accept()");
+  ("1:set accepted", "await self.pairing_config.delegate.accept()");
+  ("0:except", "");
+  ("1:set accepted", "False");
+  ("0:if", "not accepted");
+  ("1:call", "self.send_pairing_failed(ErrorCode.PAIRING_NOT_SUPPORTED)");
+  ("1:return", "");
+  ("0:set self.preq", "bytes(command)");
+  ("0:set self.bonding", "self.bonding and command.auth_req & AuthReq.BONDING != 0");
+  ("0:set self.sc", "self.sc and command.auth_req & AuthReq.SC != 0");
+  ("0:set self.ct2", "self.ct2 and command.auth_req & AuthReq.CT2 != 0");
+  ("0:if", "self.sc and (self.oob_data_flag != 0 or command.oob_data_flag != 0) or (not self.sc and (self.oob_data_flag != 0 and command.oob_data_flag != 0))");
+  ("1:set self.pairing_method", "PairingMethod.OOB");
+  ("1:if", "not self.sc and self.tk is None");
+  ("2:call", "self.send_pairing_failed(ErrorCode.OOB_NOT_AVAILABLE)");
+  ("2:return", "");
+  ("1:if", "command.oob_data_flag == 0");
+  ("2:set self.r", "bytes(16)");
+  ("0:else", "");
+  ("1:call", "self.decide_pairing_method(command.auth_req, command.io_capability, self.io_capability)");
+  ("0:call", "self.pairing_config.delegate.key_distribution_response(command.initiator_key_distribution, command.responder_key_distribution)");
+  ("0:set (self.initiator_key_distribution, self.responder_key_distribution)", "map(KeyDistribution, await self.pairing_config.delegate.key_distribution_response(command.initiator_key_distribution, command.responder_key_distribution))");
+  ("0:call", "self.compute_peer_expected_distributions(self.initiator_key_distribution)");
+  ("0:call", "self.manager.on_session_start(self)");
+  ("0:if", "not self.sc");
+  ("1:if", "self.pairing_method == PairingMethod.PASSKEY and self.passkey_display");
+  ("2:call", "self.display_passkey()");
+  ("0:call", "self.send_pairing_response_command()");
+  ("0:if", "self.connection.transport == PhysicalTransport.BR_EDR and self.connection.is_encrypted and self.is_responder and accepted");
+  ("1:call", "self.distribute_keys()");
+  ("1:if", "not self.peer_expected_distributions");
+  ("2:call", "self.on_peer_key_distribution_complete()")
+].
+
+Definition response_handler_reading : list (string * string) := [
+  ("0:if", "self.is_responder");
+  ("1:return", "");
+  ("0:set self.pres", "bytes(command)");
+  ("0:set self.peer_io_capability", "command.io_capability");
+  ("0:set self.bonding", "self.bonding and command.auth_req & AuthReq.BONDING != 0");
+  ("0:set self.sc", "self.sc and command.auth_req & AuthReq.SC != 0");
+  ("0:if", "self.sc and (self.oob_data_flag != 0 or command.oob_data_flag != 0) or (not self.sc and (self.oob_data_flag != 0 and command.oob_data_flag != 0))");
+  ("1:set self.pairing_method", "PairingMethod.OOB");
+  ("1:if", "not self.sc and self.tk is None");
+  ("2:call", "self.send_pairing_failed(ErrorCode.OOB_NOT_AVAILABLE)");
+  ("2:return", "");
+  ("1:if", "command.oob_data_flag == 0");
+  ("2:set self.r", "bytes(16)");
+  ("0:else", "");
+  ("1:call", "self.decide_pairing_method(command.auth_req, self.io_capability, command.io_capability)");
+  ("0:if", "command.initiator_key_distribution & ~self.initiator_key_distribution != 0 or command.responder_key_distribution & ~self.responder_key_distribution != 0");
+  ("1:call", "self.send_pairing_failed(ErrorCode.INVALID_PARAMETERS)");
+  ("1:return", "");
+  ("0:set self.initiator_key_distribution", "command.initiator_key_distribution");
+  ("0:set self.responder_key_distribution", "command.responder_key_distribution");
+  ("0:call", "self.compute_peer_expected_distributions(self.responder_key_distribution)");
+  ("0:if", "self.pairing_method == PairingMethod.CTKD_OVER_CLASSIC");
+  ("1:if", "not self.peer_expected_distributions");
+  ("2:call", "self.on_peer_key_distribution_complete()");
+  ("1:return", "");
+  ("0:if", "self.sc");
+  ("1:call", "self.send_public_key_command()");
+  ("1:if", "self.pairing_method == PairingMethod.PASSKEY");
+  ("2:call", "self.display_or_input_passkey()");
+  ("0:else", "");
+  ("1:if", "self.pairing_method == PairingMethod.PASSKEY");
+  ("2:call", "self.display_or_input_passkey(self.send_pairing_confirm_command)");
+  ("1:else", "");
+  ("2:call", "self.send_pairing_confirm_command()")
+].
